@@ -82,11 +82,11 @@ impl Monitor for C08 {
 		"C08"
 	}
 	fn rule(&self) -> String {
-		"(a) unknown events: small well-formed replays of every regime (and, in thorough, heads of fixtures); for EVERY event boundary after Game Start up to the one before the (first) Game End (including inside message-splitter runs and between a frame's events) 1-3 events with codes drawn from all 246 codes the library does not know and sizes from {1, 2, 7, 516, 4096, 65535} are declared in the payload table and inserted (multiplicity 1-3); additionally a run that inserts an unknown event at every boundary at once. The modified file is read through the fragmenting source (whole / 1 / 7 / 64 / random<=300-byte reads). Oracle (differential on the real reader + model): the game read (start, end, metadata, gecko, quirks, every column, validity and item offset) is identical to the game read from the original, via slippi::read (default options and, on a subset, with the debug-dump option) and via the incremental API. (b) newer versions: versions {3.17, 3.255, 4.0, 10.0, 255.255} with 1..8 or 100 extra trailing bytes appended independently to each known event kind (and to Game Start / Game End): must parse (also with skip_frames and compute_hash), every known frame field must equal the spec-offset value of the (longer) payload, and start/end must equal those of the same file without the extra bytes. One evaluation = one modified file read. distinct = (regime, boundary kind, size class) and (version, kind with extras) classes.".into()
+		"(a) unknown events: small well-formed replays of every regime (and, in thorough, heads of fixtures); for EVERY event boundary after Game Start up to the one before the (first) Game End (including inside message-splitter runs and between a frame's events) 1-3 events with codes drawn from all 246 codes the library does not know and sizes from {1, 2, 7, 516, 4096, 65535} are declared in the payload table and inserted (multiplicity 1-3); additionally a run that inserts an unknown event at every boundary at once. The modified file is read through the fragmenting source (whole / 1 / 7 / 64 / random<=300-byte reads). Oracle (differential on the real reader + model): the game read (start, end, metadata, gecko, quirks, every column, validity and item offset) is identical to the game read from the original, via slippi::read (default options and, on a subset, with the debug-dump option) and via the incremental API. (c) every one of the 246 unknown codes once per run with payload sizes 1/2/3/4/8 on replays whose Game Start carries stage ids 2/3/8/31/32. (b) newer versions: versions {3.17, 3.255, 4.0, 10.0, 255.255} with 1..8 or 100 extra trailing bytes appended independently to each known event kind (and to Game Start / Game End): must parse (also with skip_frames and compute_hash), every known frame field must equal the spec-offset value of the (longer) payload, and start/end must equal those of the same file without the extra bytes. One evaluation = one modified file read. distinct = (regime, boundary kind, size class) and (version, kind with extras) classes.".into()
 	}
 	fn n_cases(&self, ctx: &Ctx) -> usize {
 		// (a) seeds x rounds, (b) version cases
-		ctx.tier.pick(14 * 6 + 400, 14 * 60 + 23 + 20000)
+		ctx.tier.pick(14 * 6 + 400, 14 * 60 + 23 + 20000) + 246
 	}
 	fn min_classes(&self, _tier: Tier) -> usize {
 		30
@@ -257,6 +257,45 @@ impl Monitor for C08 {
 				}
 			}
 			out.sample = Some(json!({"case": idx, "file": name, "boundaries": n_events - 1, "evaluations": out.evals}));
+			return out;
+		}
+		// (c) every unknown code once per run, with small and odd payload sizes, on replays whose
+		// Game Start names different (small, realistic) stage ids
+		let nb = ctx.tier.pick(400, 20000);
+		if idx >= na + nb {
+			let code = unknown_codes()[(idx - na - nb) % 246];
+			for (k, stage) in [2u16, 3, 8, 31, 32].iter().enumerate() {
+				let seed = &seeds[(k + code as usize) % seeds.len()];
+				let mut p = mutate::split(&seed.bytes, &seed.model);
+				if p.table.iter().any(|(c, _)| *c == code) || p.events.len() < 2 {
+					continue;
+				}
+				// stage id in the Game Start block
+				p.events[0].1[crate::spec::start::STAGE..crate::spec::start::STAGE + 2].copy_from_slice(&stage.to_be_bytes());
+				let original = mutate::assemble(&p, true);
+				let base = match common::slp_read(&original, false, false) {
+					Ok(g) => snapshot(&g),
+					Err(_) => continue,
+				};
+				for sz in [1usize, 2, 3, 4, 8] {
+					let mut q = p.clone();
+					q.table.push((code, sz as u16));
+					let first_end = q.events.iter().position(|(c, _)| *c == 0x39).unwrap_or(q.events.len());
+					let j = rng.range(1, first_end.max(1));
+					q.events.insert(j, (code, rng.bytes(sz)));
+					let modified = mutate::assemble(&q, true);
+					out.evals += 1;
+					match common::slp_read(&modified, false, false) {
+						Ok(g) => {
+							if let Some(d) = snap_diff(&base, &snapshot(&g)) {
+								out.violate(format!("unknown-event-disturbs;{}", d.split_whitespace().next().unwrap_or("")), format!("{} (stage {}): unknown event {:#04x} with a {}-byte payload before event #{} changes {}", seed.name, stage, code, sz, j, d), Some(&modified));
+							}
+						}
+						Err(f) => out.violate(format!("unknown-event-rejected;{}", f.sig()), format!("{} (stage {}): unknown event {:#04x} with a {}-byte payload before event #{}: {}", seed.name, stage, code, sz, j, f.text()), Some(&modified)),
+					}
+				}
+			}
+			out.class(format!("every-unknown-code|{:#04x}", code & 0xf0));
 			return out;
 		}
 		// (b) newer versions with longer payloads
